@@ -1471,14 +1471,12 @@ impl QueryPlan {
                                 Type::bit_vec(),
                             )
                         } else {
-                            (
-                                planner.constant_expand(
-                                    (plan.is_null() as u8) as i64,
-                                    column_len,
-                                    EncodingType::U8,
-                                ),
-                                Type::bit_vec(),
-                            )
+                            let constant = planner.constant_expand(
+                                (plan.is_null() as u8) as i64,
+                                column_len,
+                                EncodingType::U8,
+                            );
+                            (filter.apply_filter(planner, constant), Type::bit_vec())
                         }
                     }
                     Func1Type::IsNotNull => {
@@ -1488,14 +1486,12 @@ impl QueryPlan {
                                 Type::bit_vec(),
                             )
                         } else {
-                            (
-                                planner.constant_expand(
-                                    (!plan.is_null() as u8) as i64,
-                                    column_len,
-                                    EncodingType::U8,
-                                ),
-                                Type::bit_vec(),
-                            )
+                            let constant = planner.constant_expand(
+                                (!plan.is_null() as u8) as i64,
+                                column_len,
+                                EncodingType::U8,
+                            );
+                            (filter.apply_filter(planner, constant), Type::bit_vec())
                         }
                     }
                     Func1Type::Negate => {
